@@ -492,8 +492,39 @@ def collect_site_paths(prog, resolver, func: FuncInfo, concrete, nodes: Set[int]
                        fork_returns=False) -> Dict[int, List[Tuple[List[Fact], List[Event], Dict]]]:
     """For each watched node id: the facts/events preceding it on every path prefix
     that reaches it (recorded when the walker evaluates the node)."""
+    # watched nodes inside `except` handlers are only reached when the try body raises:
+    # let the first call of such a try body raise the handler's class
+    from .structure import parents as _parents
+
+    pm = _parents(func.node)
+    raise_at = {}
+    for n in ast.walk(func.node):
+        if id(n) in nodes:
+            cur = pm.get(n)
+            while cur is not None and not isinstance(cur, (ast.FunctionDef, ast.AsyncFunctionDef)):
+                if isinstance(cur, ast.ExceptHandler):
+                    tr = pm.get(cur)
+                    if isinstance(tr, ast.Try):
+                        from .paths import handler_names
+
+                        exc = handler_names(cur)[0].split(".")[-1]
+                        first = None
+                        for b in tr.body:
+                            for c in ast.walk(b):
+                                if isinstance(c, ast.Call):
+                                    first = c
+                                    break
+                            if first is not None:
+                                break
+                        if first is not None:
+                            raise_at.setdefault(id(first), set()).add(exc)
+                cur = pm.get(cur)
+
+    def rp(call, target):
+        return sorted(raise_at.get(id(call), ()))
+
     w = _WatchWalker(prog, resolver, watch=nodes, inline=inline or (lambda f, t, d: False), fork_returns=fork_returns,
-                     merge_loops=True)
+                     merge_loops=True, raise_points=rp if raise_at else None)
     try:
         w.run(func, concrete)
     except Exception:
